@@ -19,6 +19,8 @@ WALL_QUICK = 100
 WALL_THOROUGH = 1500
 RETRY = 25            # the property's stated number of tolerated empty reads
 
+REACH_FOCUS = {'ebb3_serial': None, 'ebb3_motion': None}
+
 RULE = ("Scenario = world (one supported EBB with unique RAM / step / voltage payloads) + episodes of "
         "[new object, connect, 1..10 request-method calls, disconnect] + a positional fault plan. "
         "Sweep part: every registered request method x every canonical argument shape x every I/O ordinal of the "
